@@ -154,6 +154,18 @@ def c13a(ctx, impls, floors=True):
             if not lens:
                 oo = ctx.ob("C13.a", "length-before-repetition/%s" % short(im["self_ty"]), "K9", o.desc)
                 ctx.fail(oo, lp.head, "StableHash for `%s` hashes a repetition without hashing its length first: ([a],[b,c]) and ([a,b],[c]) would feed the same byte stream" % short(im["self_ty"]))
+    # ... and a loop over the value's own elements must feed them: an impl that hashes the length and then iterates without
+    # hashing anything makes all collections of one length collide
+    for im, b in impls:
+        for lp in df.iter_loops(b):
+            reg = lp.region()
+            if hash_events(b, reg):
+                continue
+            src = [x for x in df.origins_of_operand(b, lp.head.node["args"][0])] if lp.head.node.get("args") else []
+            if any(x.kind == "param" and str(x.info).split(".")[0] == "_1" for x in src):
+                oo = ctx.ob("C13.a", "elements-hashed/%s" % short(im["self_ty"]), "K9", "a loop over the value's elements feeds every element to the hasher")
+                ctx.touch(b)
+                ctx.fail(oo, lp.head, "StableHash for `%s` iterates over the value without hashing the items: every collection of the same length hashes alike" % short(im["self_ty"]))
     o.sites = n
     if floors and n < 12:
         ctx.fail(o, "(program)", "expected >= 12 hashing loops, found %d" % n)
